@@ -108,6 +108,7 @@ func cmdCheck(args []string) int {
 		}
 		return 2
 	}
+	w.Thorough = *tier == "thorough"
 	loadS := time.Since(t0).Seconds()
 	// select contracts
 	var cts []*Contract
